@@ -174,6 +174,34 @@ fn positions() -> Vec<Pos> {
         pos!("gatequbitpct", "variable", "X %", "", I::Gate(g) => g.qubits.first().and_then(qvar).map(|q| vec![q])),
         pos!("fencequbit", "qubitvar", "FENCE 0 ", "", I::Fence(f) => f.qubits.get(1).and_then(qvar).map(|q| vec![q])),
         pos!("resetqubit", "qubitvar", "RESET ", "", I::Reset(r) => r.qubit.as_ref().and_then(qvar).map(|q| vec![q])),
+        // further syntactic variants of the same constructs
+        pos!("nbpulsewf", "ident", "NONBLOCKING PULSE 0 \"f\" ", "(a: 1)", I::Pulse(p) => Some(vec![p.waveform.name.clone()])),
+        pos!("wfemptyargs", "ident", "PULSE 0 \"f\" ", "()", I::Pulse(p) => Some(vec![p.waveform.name.clone()])),
+        pos!("wftwoargs", "ident", "PULSE 0 1 \"f\" ", "(duration: 1e-6, iq: 2)", I::Pulse(p) => Some(vec![p.waveform.name.clone()])),
+        pos!("capturewfargs", "ident", "CAPTURE 0 \"f\" ", "(a: 1, b: 2) ro[0]", I::Capture(c) => Some(vec![c.waveform.name.clone()])),
+        pos!("nbcapturewf", "ident", "NONBLOCKING CAPTURE 0 \"f\" ", "(duration: 1) ro", I::Capture(c) => Some(vec![c.waveform.name.clone()])),
+        pos!("wfinsidedefcal", "ident", "DEFCAL X 0:\n\tPULSE 0 \"f\" ", "(a: 1)", I::CalibrationDefinition(c) => match c.instructions.first() { Some(I::Pulse(p)) => Some(vec![p.waveform.name.clone()]), _ => None }),
+        pos!("wfparamname2", "ident", "PULSE 0 \"f\" w(k0: 1, ", ": 2)", I::Pulse(p) => p.waveform.parameters.keys().nth(1).map(|k| vec![k.clone()])),
+        pos!("gateparamsmod", "ident", "CONTROLLED DAGGER ", "(pi, 1) 0 1", I::Gate(g) => Some(vec![g.name.clone()])),
+        pos!("gateforked", "ident", "FORKED ", "(1, 2) 0 1", I::Gate(g) => Some(vec![g.name.clone()])),
+        pos!("gatenoqubits", "ident", "", "", I::Gate(g) => Some(vec![g.name.clone()])),
+        pos!("gatequbitvars", "ident", "", " q %r", I::Gate(g) => Some(vec![g.name.clone()])),
+        pos!("exprbracketinfix", "ident", "RX(2*", "[1]+1) 0", I::Gate(g) => g.parameters.first().map(|e| en(e).into_iter().filter(|s| s != "<number>").collect())),
+        pos!("exprdefcalparam", "expr", "DEFCAL RX(", ") 0:\n\tNOP", I::CalibrationDefinition(c) => c.identifier.parameters.first().map(en)),
+        pos!("exprwfparam", "expr", "PULSE 0 \"f\" w(a: ", ")", I::Pulse(p) => p.waveform.parameters.get("a").map(en)),
+        pos!("exprdelay", "expr", "DELAY 0 \"f\" ", "", I::Delay(d) => Some(en(&d.duration))),
+        pos!("exprrawcapture", "expr", "RAW-CAPTURE 0 \"f\" ", " ro", I::RawCapture(r) => Some(en(&r.duration))),
+        pos!("exprdefwaveform", "expr", "DEFWAVEFORM w:\n\t", ", 0", I::WaveformDefinition(w) => w.definition.matrix.first().map(en)),
+        pos!("exprshiftfreq", "expr", "SHIFT-FREQUENCY 0 \"f\" -", "", I::ShiftFrequency(s) => Some(en(&s.frequency))),
+        pos!("defcalnameparams", "ident", "DEFCAL ", "(%a, 1) 0 q:\n\tNOP", I::CalibrationDefinition(c) => Some(vec![c.identifier.name.clone()])),
+        pos!("defcalnamemod", "ident", "DEFCAL DAGGER ", " 0:\n\tNOP", I::CalibrationDefinition(c) => Some(vec![c.identifier.name.clone()])),
+        pos!("defcircuitnameparams", "ident", "DEFCIRCUIT ", "(%a) q:\n\tRX(%a) q", I::CircuitDefinition(c) => Some(vec![c.name.clone()])),
+        pos!("defgatenameparams", "ident", "DEFGATE ", "(%a, %b) AS MATRIX:\n\t%a, 0\n\t0, %b", I::GateDefinition(g) => Some(vec![g.name.clone()])),
+        pos!("defgatenameperm", "ident", "DEFGATE ", " AS PERMUTATION:\n\t0, 1", I::GateDefinition(g) => Some(vec![g.name.clone()])),
+        pos!("defgatenamepauli", "ident", "DEFGATE ", "(%t) q AS PAULI-SUM:\n\tX(%t) q", I::GateDefinition(g) => Some(vec![g.name.clone()])),
+        pos!("defwaveformnameparams", "ident", "DEFWAVEFORM ", "(%a):\n\t%a, 0", I::WaveformDefinition(w) => Some(vec![w.name.clone()])),
+        pos!("callargmembare", "ident", "CALL f x0 ", "", I::Call(c) => match c.arguments.get(1) { Some(UnresolvedCallArgument::Identifier(s)) => Some(vec![s.clone()]), _ => None }),
+        pos!("pragmaargsmany", "ident", "PRAGMA p 1 ", " x", I::Pragma(p) => match p.arguments.get(1) { Some(PragmaArgument::Identifier(s)) => Some(vec![s.clone()]), _ => None }),
         pos!("exprvariable", "variable", "RX(%", ") 0", I::Gate(g) => g.parameters.first().map(|e| en(e).into_iter().map(|s| s.trim_start_matches('%').to_string()).collect())),
     ]
 }
@@ -213,6 +241,86 @@ fn wf_case(ctx: &mut Ctx, a: &str, b: &str) {
         },
         Err(_) => tagged("err", vec![]),
     });
+}
+
+/// waveform names of the form `a/b` without an argument list
+fn wf_bare_case(ctx: &mut Ctx, a: &str, b: &str) {
+    let text = format!("CAPTURE 0 \"f\" {a}/{b} ro");
+    ctx.case(tagged("wfslash", vec![st(a), st(b)]), move || match Program::from_str(&text) {
+        Ok(p) => match p.to_instructions().as_slice() {
+            [Instruction::Capture(c)] => names_out(vec![c.waveform.name.clone()]),
+            _ => tagged("other", vec![]),
+        },
+        Err(_) => tagged("err", vec![]),
+    });
+}
+
+/// Cross-position consistency: the same spelling at a definition site and at each of its use sites.
+/// (kind, program text with `{n}`)
+const DEFUSE: &[(&str, &str)] = &[
+    ("waveform", "DEFWAVEFORM {n}(%s):\n\t%s, 0\nPULSE 0 \"f\" {n}(s: 1)\nCAPTURE 0 \"f\" {n}(s: 2) ro\nNONBLOCKING PULSE 0 \"f\" {n}\n"),
+    ("gate", "DEFGATE {n}(%a) AS MATRIX:\n\t%a, 0\n\t0, 1\n{n}(1) 0\nDAGGER {n}(2) 0\n"),
+    ("gateplain", "DEFGATE {n} AS PERMUTATION:\n\t0, 1\n{n} 0\nCONTROLLED {n} 1 0\n"),
+    ("circuit", "DEFCIRCUIT {n}(%a) q:\n\tRX(%a) q\n{n}(1) 0\n"),
+    ("calibration", "DEFCAL {n}(%a) 0:\n\tNOP\nDEFCAL {n} 1:\n\tNOP\n{n}(1) 0\n{n} 1\n"),
+    ("label", "LABEL @{n}\nJUMP @{n}\nJUMP-WHEN @{n} ro\nJUMP-UNLESS @{n} ro[1]\n"),
+    ("extern", "PRAGMA EXTERN {n} \"(a : INTEGER)\"\nCALL {n} 1\n"),
+    ("frame", "DEFFRAME 0 \"{n}\":\n\tDIRECTION: \"tx\"\nPULSE 0 \"{n}\" w\nSET-PHASE 0 \"{n}\" 1\nDELAY 0 \"{n}\" 1\n"),
+    ("region", "DECLARE {n} REAL[2]\nDEFCAL X 0:\n\tSHIFT-PHASE 0 \"f\" {n}[1]\nRX({n}) 0\nPULSE 0 \"f\" w(a: {n}[0])\n"),
+];
+
+fn defuse_names(kind: &str, is: &[Instruction]) -> Vec<String> {
+    let mut v = Vec::new();
+    for i in is {
+        match (kind, i) {
+            ("waveform", Instruction::WaveformDefinition(w)) => v.push(w.name.clone()),
+            ("waveform", Instruction::Pulse(p)) => v.push(p.waveform.name.clone()),
+            ("waveform", Instruction::Capture(c)) => v.push(c.waveform.name.clone()),
+            ("gate" | "gateplain", Instruction::GateDefinition(g)) => v.push(g.name.clone()),
+            ("gate" | "gateplain" | "circuit" | "calibration", Instruction::Gate(g)) => v.push(g.name.clone()),
+            ("circuit", Instruction::CircuitDefinition(c)) => v.push(c.name.clone()),
+            ("calibration", Instruction::CalibrationDefinition(c)) => v.push(c.identifier.name.clone()),
+            ("label", Instruction::Label(l)) => v.extend(target(&l.target)),
+            ("label", Instruction::Jump(j)) => v.extend(target(&j.target)),
+            ("label", Instruction::JumpWhen(j)) => v.extend(target(&j.target)),
+            ("label", Instruction::JumpUnless(j)) => v.extend(target(&j.target)),
+            ("extern", Instruction::Pragma(p)) => match p.arguments.first() {
+                Some(PragmaArgument::Identifier(s)) => v.push(s.clone()),
+                _ => v.push("<no-extern-name>".to_string()),
+            },
+            ("extern", Instruction::Call(c)) => v.push(c.name.clone()),
+            ("frame", Instruction::FrameDefinition(f)) => v.push(f.identifier.name.clone()),
+            ("frame", Instruction::Pulse(p)) => v.push(p.frame.name.clone()),
+            ("frame", Instruction::SetPhase(sp)) => v.push(sp.frame.name.clone()),
+            ("frame", Instruction::Delay(d)) => v.extend(d.frame_names.iter().cloned()),
+            ("region", Instruction::Declaration(d)) => v.push(d.name.clone()),
+            ("region", Instruction::CalibrationDefinition(c)) => {
+                for b in &c.instructions {
+                    if let Instruction::ShiftPhase(sp) = b {
+                        v.extend(en(&sp.phase))
+                    }
+                }
+            }
+            ("region", Instruction::Gate(g)) => v.extend(g.parameters.iter().flat_map(en)),
+            ("region", Instruction::Pulse(p)) => v.extend(p.waveform.parameters.values().flat_map(en)),
+            _ => v.push("<unexpected-instruction>".to_string()),
+        }
+    }
+    v
+}
+
+fn defuse_case(ctx: &mut Ctx, kind: &'static str, template: &'static str, ident: &str) {
+    let text = template.replace("{n}", ident);
+    ctx.case(tagged("defuse", vec![atom(kind), st(ident)]), move || match Program::from_str(&text) {
+        Ok(p) => names_out(defuse_names(kind, &p.to_instructions())),
+        Err(_) => tagged("err", vec![]),
+    });
+}
+
+fn all_defuse(ctx: &mut Ctx, ident: &str) {
+    for (kind, template) in DEFUSE {
+        defuse_case(ctx, kind, template, ident);
+    }
 }
 
 /// The same region spelled in DECLARE, in classical operands and inside expressions; then type_check.
@@ -284,6 +392,51 @@ const PLAIN: &[&str] = &[
     "x-y--z", "q0", "Q0", "my_waveform", "My_Waveform", "q20_q27_xy", "sqrtiSWAP", "CZ", "cz", "Cz", "RX", "rx", "Rx", "H",
     "h", "CNOT", "cNOT", "a9-9a", "_-_", "z_Z_z", "abcdefghijkl", "ABCDEFGHIJKL", "a1b2c3d4e5f6",
 ];
+/// names that some LATER stage of the library treats specially (string tables, built-in templates,
+/// standard gates, reserved pragma names, frame attribute keys, waveform parameter names): a parser that
+/// "normalises" them in one position but not another breaks C06.  Used in every letter case.
+const DOMAIN: &[&str] = &[
+    // built-in Quil-T waveform templates (waveform/mod.rs) and their parameter names
+    "flat", "gaussian", "drag_gaussian", "erf_square", "hrm_gauss", "raised_cosine", "boxcar_kernel", "duration", "iq",
+    "scale", "phase", "detuning", "fwhm", "t0", "anh", "alpha", "risetime", "pad_left", "pad_right",
+    "second_order_hrm_coeff",
+    // standard gates (instruction/gate.rs tables) and Pauli words
+    "I", "X", "Y", "Z", "H", "S", "T", "CNOT", "CCNOT", "CZ", "SWAP", "CSWAP", "ISWAP", "PSWAP", "PHASE", "CPHASE00",
+    "CPHASE01", "CPHASE10", "CPHASE", "RX", "RY", "RZ", "XY", "XX", "ZZ",
+    // pragma names and frame attribute keys the library looks up by name
+    "EXTERN", "LOAD-MEMORY", "DIRECTION", "INITIAL-FREQUENCY", "HARDWARE-OBJECT", "CENTER-FREQUENCY", "SAMPLE-RATE",
+    "CHANNEL-DELAY", "ENABLE-RAW-CAPTURE", "tx", "rx",
+    // expression words and type-like words once more, as plain names
+    "pi", "i", "sin", "cos", "sqrt", "exp", "cis", "ro", "bit", "octet", "real", "integer", "measure", "dest",
+];
+
+/// letter-case variants of a word: as written, lower, UPPER, Capitalised, aLtErNaTiNg, last letter flipped
+fn case_variants(w: &str, all: bool) -> Vec<String> {
+    let lower = w.to_ascii_lowercase();
+    let upper = w.to_ascii_uppercase();
+    let mut cap: String = lower.clone();
+    if let Some(f) = cap.get_mut(0..1) {
+        f.make_ascii_uppercase();
+    }
+    let alt: String = lower
+        .chars()
+        .enumerate()
+        .map(|(k, c)| if k % 2 == 1 { c.to_ascii_uppercase() } else { c })
+        .collect();
+    let mut last: Vec<char> = w.chars().collect();
+    if let Some(c) = last.iter_mut().rev().find(|c| c.is_ascii_alphabetic()) {
+        *c = if c.is_ascii_lowercase() { c.to_ascii_uppercase() } else { c.to_ascii_lowercase() };
+    }
+    let last: String = last.into_iter().collect();
+    let mut v = vec![w.to_string(), cap, if w == lower { upper.clone() } else { lower.clone() }];
+    if all {
+        v.extend([lower, upper, alt, last]);
+    }
+    let mut seen = std::collections::HashSet::new();
+    v.retain(|x| seen.insert(x.clone()));
+    v
+}
+
 /// not identifiers (must not be silently repaired into names)
 const INVALID: &[&str] = &["1a", "-a", "a-", "a--", "a.b", "a b", "a$", "é", "aé", "a\u{0301}", "9", "", "a-+b", "a@b", "a%b"];
 
@@ -358,8 +511,9 @@ fn run(ctx: &mut Ctx) {
     let quick = ctx.quick();
     let positions = positions();
     // 1. corpus: the lower-casing defect (DECLARE Theta / RX(Theta)) and friends
-    for s in ["Theta", "THETA", "Ro", "Pi", "I", "SIN", "Defgate", "i2", "a-b", "DEFGATE", "mut"] {
+    for s in ["Theta", "THETA", "Ro", "Pi", "I", "SIN", "Defgate", "i2", "a-b", "DEFGATE", "mut", "Gaussian", "FLAT", "Erf_Square"] {
         consistency_case(ctx, s);
+        all_defuse(ctx, s);
         for p in &positions {
             pos_case(ctx, p, s);
         }
@@ -394,6 +548,18 @@ fn run(ctx: &mut Ctx) {
         lex_case(ctx, &text);
         rerender_case(ctx, &text);
     }
+    // 3a. domain-special names in every letter case: every position, definition/use consistency
+    let domain_words: Vec<String> = DOMAIN.iter().flat_map(|w| case_variants(w, !quick)).collect();
+    for w in &domain_words {
+        lex_case(ctx, w);
+        for p in &positions {
+            pos_case(ctx, p, w);
+        }
+        consistency_case(ctx, w);
+        all_defuse(ctx, w);
+        wf_case(ctx, w, "ext");
+        wf_bare_case(ctx, "q0_q1", w);
+    }
     // 3. identifiers in every position
     let groups: Vec<&[&str]> = if quick {
         vec![&NEAR_KEYWORDS[..20], EXPR_WORDS, &PLAIN[..28], &INVALID[..8], &KEYWORDS[..12]]
@@ -407,6 +573,7 @@ fn run(ctx: &mut Ctx) {
             }
             // 4. consistency
             consistency_case(ctx, s);
+            all_defuse(ctx, s);
         }
     }
     for a in ["q20_q27_xy", "Ab-1", "pi", "I"] {
@@ -451,6 +618,11 @@ fn run(ctx: &mut Ctx) {
         if rng.chance(1, 10) {
             let b = random_ident(&mut rng);
             wf_case(ctx, &s, &b);
+            wf_bare_case(ctx, &b, &s);
+        }
+        if rng.chance(1, 3) {
+            let (kind, template) = DEFUSE[rng.below(DEFUSE.len() as u64) as usize];
+            defuse_case(ctx, kind, template, &s);
         }
     }
 }
